@@ -232,7 +232,16 @@ RULES = [
 ]
 
 
+UNFINISHED = ['repeat 2 begin hue nosuch end', 'define r9 with a begin repeat while {a > 0} begin hue nosuch', 'set "M" begin hue nosuch end',
+              'if {v > 0} begin repeat all as l begin hue nosuch', 'define r9 begin hue nosuch']
+
 ODD_FORMS = [
+    # definitions inside conditionals and loops: the code around them runs as written whichever way the condition goes
+    'if {v > 1} begin define r5 begin on all end end assign y {1 + 2} print y',
+    'if {v > 1} begin on all end else begin define r5 begin on all end repeat 2 begin off all end end assign y {v * 2}',
+    'repeat with i from 1 to 2 begin define r5 with y begin print y end r5 i end assign y {i + 1}',
+    'if {v > 0} begin define r5 begin on all end end else begin define r6 begin off all end end assign y {1 + 2} r5',
+    'repeat while {v < 3} begin if {v > 1} begin define r5 begin on all end end assign v {v + 1} end print {v + 1}',
     'on "A" row 1', 'off "Q" column 2', 'on "M" row 0 1 column 2', 'on default', 'off default', 'set default', 'set "M" begin on "A" end',
     'set "M" begin off "A" stage row 1 end', 'set "M" begin get "A" stage row 1 end', 'set "M" begin units raw stage row 1 end', 'set "M" begin end',
     'printf "{1}" 5', 'printf "{0} {0}" 1 2', 'hue 12:30 set all', 'repeat with i in "a" print i', 'get "Z" zone 1', 'set group "G1" zone 1 2',
@@ -276,6 +285,17 @@ def rule_worker(args):
                 job.load_string(text)
                 if job.program:
                     bad = 'rejected after an accepted text: the job still holds a program of %d instructions' % len(job.program)
+            if bad is None and prefix == '':
+                # ... and after a text that was rejected in the middle of a loop, a routine, a matrix block or a conditional
+                for first in UNFINISHED:
+                    job = ScriptJob()
+                    job.load_string(PREAMBLE + '\n' + first)
+                    if job.program:
+                        continue
+                    job.load_string(text)
+                    if job.program:
+                        bad = 'accepted (program of %d instructions) by a job whose previous text, %r, had been rejected' % (len(job.program), first)
+                        break
             if bad:
                 res.violation('rules|%s|%s' % (name, sig_detail(bad)), 'rule breaker (%s) %s\n  script: %s' % (name, bad, prefix + snippet + suffix),
                               inputs={'text': text}, replayed=True)
